@@ -556,6 +556,23 @@ def check_C10(ctx):
                                 groups.append((s0, len(cases)))
                     elif len(cases) - start > 1:
                         groups.append((start, len(cases)))
+    # the valued option folded onto the end of the run with its value in the NEXT token ("-vvf x"), in front of an option the
+    # spec asks for first: every folding, the valued option separate, folded with a separate value, folded with the value
+    # attached, in its long spelling
+    for sp in ("[-w] [-v...] [-f]", "-w -v... -f", "[OPTIONS]", "[-w] (-v | -f)..."):
+        for run in (["v"], ["v", "v"], ["v", "v", "v"]):
+            for tail in ([], ["-w"]):
+                start = len(cases)
+                seen = set()
+                for fo in foldings(run):
+                    for argv in (fo + ["-f", "x"] + tail, fo[:-1] + [fo[-1] + "f", "x"] + tail, fo[:-1] + [fo[-1] + "fx"] + tail,
+                                 fo + ["--file", "x"] + tail, fo + ["--file=x"] + tail):
+                        if tuple(argv) in seen:
+                            continue
+                        seen.add(tuple(argv))
+                        cases.append({"op": "run", "env": {}, "version": None, "root": gen.mkcmd("app", decls=copy.deepcopy(sdecls), spec=sp, policy=0),
+                                      "argv": argv})
+                groups.append((start, len(cases)))
     # a folded token behind (or in front of) many other option tokens, in every folding
     fdecl = [gen.mkopt("custom", "v", custom=dict(gen.CUSTOM_FLAG)), gen.mkopt("custom", "w", custom=dict(gen.CUSTOM_FLAG))]
     for sp in ("-v... -w...", "(-v | -w)...", "[-v...] -w..."):
